@@ -41,7 +41,7 @@ class Box:
 
 def configs(tier):
     out = []
-    sets = [["DE", "UE"], ["DE", "DE"]] if tier == "quick" else [["DE", "UE"], ["DE", "DE"], ["UE", "UE"], ["DE", "TE"], ["SD", "SU"]]
+    sets = [["DE", "UE"], ["DE", "DE"]] if tier == "quick" else [["DE", "UE"], ["DE", "DE"], ["UE", "UE"], ["SD", "SU"]]
     combos = [("none", None), ("none", 1), ("sym", 0)] if tier == "quick" else \
         [("none", None), ("none", 0), ("none", 1), ("sym", None), ("sym", 0), ("sym", 2)]
     for cs in sets:
